@@ -1792,7 +1792,7 @@ namespace variant_detail
         typename std::enable_if<std::is_same<PeriodT,std::nano>::value, result_type>::type
         from_json_(const allocator_set<Alloc,TempAlloc>& aset, const Json& j)
         {
-            if (j.is_int64() || j.is_uint64() || j.is_double())
+            if (j.is_int64() || j.is_uint64())
             {
                 auto count = j.template as<Rep>();
                 switch (j.tag())
@@ -1813,9 +1813,9 @@ namespace variant_detail
                 switch (j.tag())
                 {
                     case semantic_tag::epoch_second:
-                        return result_type(in_place, static_cast<Rep>(count * nanos_in_second));
+                        return result_type(in_place, scaled_to_rep_(count * nanos_in_second));
                     case semantic_tag::epoch_milli:
-                        return result_type(in_place, static_cast<Rep>(count * nanos_in_milli));
+                        return result_type(in_place, scaled_to_rep_(count * nanos_in_milli));
                     case semantic_tag::epoch_nano:
                         return result_type(in_place, static_cast<Rep>(count));
                     default:
